@@ -1,9 +1,12 @@
 (** Properties/C09.v — "A reload sees exactly the saved modifications and nothing else changes".
     Only statements, each closed by [exact] of a lemma proved in Storage/Proofs.v.
-    [ser], [parse_obj], [member] are the serialiser / reader of primitives (Section functions of the model,
-    quantified here); their round trip is an explicit premise where it is needed (it is property C04). *)
+    The object model is the shared one ([PdfV.Syn.Prim.prim]); where a theorem is about what a reload reads, the
+    serialiser is [PdfV.Syn.Serialize.ser] and the reader [PdfV.Syn.Parser.parse_indirect_object] (as
+    [Storage.Syntax.parse_obj]) and their round trip is the C04 theorem, not a premise.  Elsewhere [ser], [parse_obj],
+    [member] stay quantified (the theorems hold for any). *)
 From PdfV Require Import Base.Prelude Storage.Prim Storage.Model Storage.Proofs Storage.Syntax Storage.Run Storage.Tables.
-From PdfV Require Syn.Serialize.
+From PdfV Require Import Gen.Generated Storage.Reload.
+From PdfV Require Syn.Serialize Syn.Parser Syn.Spells Syn.SerProofs.
 
 (** Before any save, every read through the same open document already reflects each write: the reference
     handed back names the caller's object (same number — also for objects stored in object streams), reads of
@@ -78,17 +81,43 @@ Theorem C09_save_layout : forall ser s tr s' tr',
 Proof. exact save_layout. Qed.
 Print Assumptions C09_save_layout.
 
-(** Reload: a state over the saved bytes whose table is the saved table (C09_xref_roundtrip) resolves every
-    written reference — the very number the caller used, any generation — to the last value written ... *)
-Theorem C09_reload : forall ser parse_obj member s tr s' tr' s3,
-  (forall pre id g p body post, ser p = Ok body ->
-     parse_obj (pre ++ obj_bytes id g body ++ post) (lenN pre) = Ok (id, g, p)) ->
-  wf_st s -> save ser s tr = Ok (s', tr', None) ->
+(** The object framing of save is read back by the parser: `id gen obj\n` ++ serialize(v) ++ `\nendobj\n`, wherever
+    it sits in the buffer and whatever follows, parses (parse_indirect_object, strict) to (id, gen, v) for every value
+    of C04's storable domain.  This was the oracle premise [parse_ser] of C09_reload; it is now a theorem — the
+    composition of C04 ([PdfV.Syn.SerProofs.ser_spells]) with C03 ([parse_rendered]) on the framing. *)
+Theorem C09_parse_ser : forall pre id g v post,
+  SerProofs.storable v -> Spells.vdepth v <= MAX_DEPTH -> id < 2 ^ 64 -> g < 2 ^ 64 ->
+  forall body, Serialize.ser v = Ok body -> parse_obj (pre ++ obj_bytes id g body ++ post) (lenN pre) = Ok (id, g, v).
+Proof. exact parse_obj_framed. Qed.
+Print Assumptions C09_parse_ser.
+
+(** Reload: a state over the saved bytes whose table is the saved table (C09_xref_roundtrip, C09_load_table) resolves
+    every written reference — the very number the caller used, any generation — to the last value written.  No premise
+    about the parser: the serialiser is [Syn.Serialize.ser], the reader [Syn.Parser.parse_indirect_object]
+    ([Storage.Syntax.parse_obj]), the values those of C04's [storable] within the parser's nesting limit. *)
+Theorem C09_reload : forall member s tr s' tr' s3,
+  wf_st s -> save Serialize.ser s tr = Ok (s', tr', None) ->
   changes s3 = [] -> backend s3 = backend s' -> start s3 = start s ->
   (forall i, i < lenN (refs s') -> nthN (refs s3) i = nthN (refs s') i) ->
-  forall id p g g', clookup (changes (save_pre s tr)) id = Some (p, g) -> resolve parse_obj member s3 (id, g') = Ok p.
-Proof. exact reload_sees_writes. Qed.
+  forall id p g g', clookup (changes (save_pre s tr)) id = Some (p, g) ->
+    SerProofs.storable p -> Spells.vdepth p <= MAX_DEPTH -> id < 2 ^ 64 -> g < 2 ^ 64 ->
+    resolve parse_obj member s3 (id, g') = Ok p.
+Proof. exact reload_sees_storable. Qed.
 Print Assumptions C09_reload.
+
+(** ... a written stream (pending data, a dictionary of the storable domain whose /Length is the direct byte count)
+    to a stream with the same dictionary whose data, read from the saved bytes, is the data written. *)
+Theorem C09_reload_stream : forall member s tr s' tr' s3,
+  wf_st s -> save Serialize.ser s tr = Ok (s', tr', None) ->
+  changes s3 = [] -> backend s3 = backend s' -> start s3 = start s ->
+  (forall i, i < lenN (refs s') -> nthN (refs s3) i = nthN (refs s') i) ->
+  forall id d data g g', clookup (changes (save_pre s tr)) id = Some (PStreamData d data, g) ->
+    SerProofs.storable (PDict d) -> Spells.vdepth (PDict d) <= MAX_DEPTH ->
+    dict_get Parser.key_Length d = Some (PInt (Z.of_N (lenN data))) -> id < 2 ^ 64 -> g < 2 ^ 64 ->
+    exists st, resolve parse_obj member s3 (id, g') = Ok (PStream d id g st (lenN data)) /\
+               raw_data (backend s3) (PStream d id g st (lenN data)) = Some data.
+Proof. exact reload_sees_stream. Qed.
+Print Assumptions C09_reload_stream.
 
 (** ... and every untouched directly stored object to its previous value. *)
 Theorem C09_reload_untouched : forall ser parse_obj member s tr s' tr' s3,
